@@ -717,6 +717,16 @@ func runImplRaw(line string) string {
 			return bad
 		}
 		return "ok " + hx([]byte(otp.LeftPadHex(string(s), int(w))))
+	case "musthex":
+		if len(f) != 3 {
+			return bad
+		}
+		s, ok := unhex(f[1])
+		w, e := strconv.ParseInt(f[2], 10, 64)
+		if !ok || e != nil {
+			return bad
+		}
+		return "ok " + hx(otp.MustHexPadLeft(string(s), int(w)))
 	case "hexinput":
 		if len(f) != 6 {
 			return bad
